@@ -104,8 +104,14 @@ class Elem:
         if self.cls != "CallExpr":
             return None
         if self.decl:
-            return self.decl["name"]
+            # memmove does everything memcpy does: rules that look for a copy see one name; a rule that needs to know
+            # that overlapping operands are handled asks callee_real
+            return CALLEE_ALIAS.get(self.decl["name"], self.decl["name"])
         return None
+
+    @property
+    def callee_real(self):
+        return self.decl["name"] if self.cls == "CallExpr" and self.decl else None
 
     @property
     def args(self):
@@ -133,6 +139,7 @@ class Elem:
 
 
 COMMUTATIVE = ("+", "*", "&", "|", "^", "==", "!=")
+CALLEE_ALIAS = {"memmove": "memcpy", "__builtin_memmove": "memcpy", "__builtin_memcpy": "memcpy"}
 
 
 def commute(a, b):
